@@ -223,7 +223,13 @@ func solveOneLevel(o *Obligation, prelude string, opts SolveOpts, suffix string)
 			if s.Name == res.Solver {
 				continue
 			}
-			st2, _, secs2 := runSolver(s, file, opts.TimeoutS)
+			// the cross-check gets a short budget: it is a soundness probe (a second solver saying "sat"
+			// is a disagreement), not a second proof attempt
+			cto := opts.TimeoutS
+			if cto > 15 {
+				cto = 15
+			}
+			st2, _, secs2 := runSolver(s, file, cto)
 			total += secs2
 			res.Tried = append(res.Tried, fmt.Sprintf("%s:%s:%.2fs(confirm)", s.Name, st2, secs2))
 			if st2 == "unsat" {
